@@ -27,10 +27,13 @@ for d in $DEMOS; do cp $SRC/demo/$d $W/$DEST/$d; done
 run_demos; WITH=$?
 git -C /repo worktree remove --force $W
 # now the checks against /repo with the change applied
+# (one at a time: two confirmations running side by side would see each other's change in /repo)
+exec 9>/tmp/conf/.repo.lock; flock 9
 cd /repo && git apply $OUT/patch.diff || { echo "patch does not apply to /repo"; exit 2; }
 cd /verif
 VERIF_EVIDENCE_DIR=/tmp/conf/$NAME.ev bin/vcheck $PID --tier quick > $OUT/vcheck.quick.log 2>&1; Q=$?; rm -rf /tmp/conf/$NAME.ev   # (evidence of a run on a changed tree is not kept)
 git -C /repo checkout -- . ; git -C /repo clean -fdq rlib ; git -C /repo status --short
+flock -u 9
 python3 - "$NAME" "$PID" "$BASE" "$EXIST" "$WITH" "$Q" "$PKG" "$DEST" <<'PY'
 import json,sys,re,os
 name,pid,base,exist,withc,q,pkg,dest=sys.argv[1:9]
